@@ -53,6 +53,12 @@ func stdCtx(t *rapid.T) Ctx {
 		Str(rapid.SampledFrom(words).Draw(t, "mname")), Hash([]string{"z"}, []*E{Int(int64(si.Draw(t, "z")))})}))
 	c.Set("nul", Null())
 	c.Set("es", List())
+	// a list long enough for implementations that switch strategy with the size
+	big := make([]*E, 60)
+	for i := range big {
+		big[i] = Int(int64(i - 10))
+	}
+	c.Set("big", List(big...))
 	return c
 }
 
@@ -300,8 +306,13 @@ func (g *xgen) boolE(d int) *E {
 		return g.fallbackBool(g.deco(Bin(op, g.strE(d-1), g.strE(d-1)), 2))
 	case 4:
 		op := rapid.SampledFrom([]string{"in", "not in"}).Draw(g.t, "inop")
-		if g.pick(2, "inkind") == 0 {
+		switch g.pick(4, "inkind") {
+		case 0:
 			return g.fallbackBool(g.deco(Bin(op, g.intE(d-1), Var("xs")), 2))
+		case 1:
+			return g.fallbackBool(g.deco(Bin(op, g.intE(d-1), Var("big")), 2))
+		case 2:
+			return g.fallbackBool(g.deco(Bin(op, g.intE(d-1), Call("range", Int(-10), Int(49))), 2))
 		}
 		return g.fallbackBool(g.deco(Bin(op, g.strAtom(), Var("ws")), 2))
 	case 5:
